@@ -486,6 +486,7 @@ class JaqalParser(Parser):
         else:
             line = "EOF"
             col = 0
+            raise JaqalParseError(self._source, line, col, "Unexpected end of input")
         raise JaqalParseError(self._source, line, col, f"At token `{token.value}`")
 
     def raise_error(self, message):
